@@ -97,7 +97,7 @@ fn print_report(r: &exec::Report) {
 fn cmd_fanout(args: &[String]) -> i32 {
     let jobs: usize = arg(args, "--jobs").and_then(|s| s.parse().ok()).unwrap_or(16).max(1);
     let file = arg(args, "--file").expect("--file");
-    let timeout_ms: u64 = arg(args, "--timeout-ms").and_then(|s| s.parse().ok()).unwrap_or(120_000);
+    let timeout_ms: u64 = arg(args, "--timeout-ms").and_then(|s| s.parse().ok()).unwrap_or(900_000);
     let text = std::fs::read_to_string(&file).expect("read cmds");
     let cmds: Vec<&str> = text.lines().collect();
     let exe = std::path::PathBuf::from("/proc/self/exe"); // survives a rebuild that replaces the binary on disk
